@@ -183,9 +183,9 @@ def run(ctx) -> None:
     if deg is None:
         raise AnalysisError("Data_K.degen vanished")
     from .c15 import _border_signature
-    sig = _border_signature(deg)
+    sig = _border_signature(deg, idx)
     cmpn = sig.get("cmp_node")
-    thr_ok = cmpn is not None and norm(cmpn.comparators[0]) == "self.degen_thresh_random_gauge" and sig["cmp"] == "Gt"
+    thr_ok = sig.get("thr") == "self.degen_thresh_random_gauge" and sig["cmp"] == "Gt"
     multi = [c_ for c_ in ast.walk(deg.node) if isinstance(c_, ast.Compare) and len(c_.ops) == 1 and isinstance(c_.ops[0], ast.Gt)
              and isinstance(c_.left, ast.BinOp) and isinstance(c_.left.op, ast.Sub) and const_of(c_.comparators[0]) == 1]
     r3.check(thr_ok and bool(sig["plus1"]) and bool(sig["start0"]) and bool(sig["endlen"]) and bool(sig["pairs"]) and len(multi) == 1,
